@@ -1,2 +1,3 @@
 -- root of the library: everything the checks build
 import CtyModel.Props.C07
+import CtyModel.Props.C03
